@@ -455,8 +455,12 @@ func (s *ReverseInnerSearcher) Find(haystack []byte) *Match {
 
 		// Step 2: Forward search on SUFFIX portion
 		// Find the end of the match (forward DFA finds longest match = greedy)
-		suffixHaystack := haystack[pos:]
-		matchEndRel := s.forwardDFA.Find(fwdCache, suffixHaystack)
+		// ANCHORED at the inner literal: an unanchored scan would accept a suffix
+		// match that starts later (`\w+@\w+` on "a@\n_@oZ": "@oZ" after the first '@').
+		matchEndRel := -1
+		if matchEndAbs := s.forwardDFA.SearchAtAnchored(fwdCache, haystack, pos); matchEndAbs >= 0 {
+			matchEndRel = matchEndAbs - pos
+		}
 		if matchEndRel < 0 {
 			// Suffix doesn't match - update minPreStart and try next candidate
 			minPreStart = pos + s.innerLen
@@ -558,8 +562,8 @@ func (s *ReverseInnerSearcher) IsMatch(haystack []byte) bool {
 
 		if prefixMatches {
 			// Step 2: Check if suffix matches (forward DFA from inner position)
-			suffixHaystack := haystack[pos:]
-			if s.forwardDFA.IsMatch(fwdCache, suffixHaystack) {
+			// (anchored at the inner literal, see Find)
+			if s.forwardDFA.SearchAtAnchored(fwdCache, haystack, pos) >= 0 {
 				// Both prefix and suffix match - pattern matches!
 				return true
 			}
@@ -644,8 +648,12 @@ func (s *ReverseInnerSearcher) findIndicesAtImpl(haystack []byte, at int, fwdCac
 		}
 
 		// Step 2: Forward search on SUFFIX portion
-		suffixHaystack := haystack[pos:]
-		matchEndRel := s.forwardDFA.Find(fwdCache, suffixHaystack)
+		// ANCHORED at the inner literal: an unanchored scan would accept a suffix
+		// match that starts later (`\w+@\w+` on "a@\n_@oZ": "@oZ" after the first '@').
+		matchEndRel := -1
+		if matchEndAbs := s.forwardDFA.SearchAtAnchored(fwdCache, haystack, pos); matchEndAbs >= 0 {
+			matchEndRel = matchEndAbs - pos
+		}
 		if matchEndRel < 0 {
 			// Suffix doesn't match - try next candidate
 			searchStart = pos + 1
